@@ -5,14 +5,14 @@ from vlib import core
 THEOREMS = [
     # nextWait (stated over the go2lean translation LLRP.Gen.retry_nextWait)
     'wait_bounds', 'wait_nojitter', 'wait_jitter', 'wait_jitter_exact', 'nextWait_safe',
-    'raw_edges', 'raw_negative_base_witness', 'api_wait_bounds', 'feasible_sound', 'feasible_complete',
+    'raw_edges', 'raw_negative_base_witness', 'api_wait_bounds', 'monitor_accepts', 'feasible_sound', 'feasible_complete',
     # RetryWithCtx (hand-written model LLRP.Retry.run, tied by the differential run)
     'runs_total', 'runs_exhaust', 'below_one_is_one', 'terminates', 'stops_at_once', 'success_iff_last_ok',
     'failure_reason', 'entry_is_vacuous', 'kept_errors', 'waits_are_nextWait', 'waits_bounded',
 ]
 MODULES = ['LLRP.Model.Retry', 'LLRP.Model.GoInt', 'LLRP.Proofs.Retry', 'LLRP.Oracle.C18']
 RULE = ('nextWait: n in -2..70 and 5 extreme n x (base, max) in {0, 1, 1ms, 1s, 1min, 2^62, 2^63-1, 3 random, -1, -2^63, random negative}^2 '
-        'without jitter (value compared), with jitter for base >= 0 (each observed value must be feasible for some draw 0 <= s < 2^n, '
+        'without jitter (value compared with the translated function, and judged by the Lean pause monitor for base, max >= 1), with jitter for base >= 0 (each observed value must be feasible for some draw 0 <= s < 2^n, '
         'decided arithmetically by the Lean model). RetryWithCtx: every outcome sequence over {ok, recoverable, fatal} of length <= 6 '
         'x retries {-5..5 incl. Forever} x KeepErrs {0,1,2,10,-3} on a live context; context ended at entry; context ending '
         '(Canceled / DeadlineExceeded) at each wait position of every sequence of length <= 4, 3 trials each which must agree; waits of an '
@@ -35,6 +35,8 @@ def nontrivial(r):
     p = r.split(' ')
     if p[0] == 'nextwait':
         return p[1] != '0' and p[2] != '0' and not p[4].startswith('-') and p[4] != '0'
+    if p[0] == 'wait-spec':
+        return not p[4].startswith('-') and p[4] != '0'
     if p[0] == 'nextwait-feasible':
         return p[1] != '0' and p[2] != '0' and not p[3].startswith('-') and p[3] != '0'
     if p[0] in ('retry', 'retry-elapsed'):
@@ -101,8 +103,10 @@ def clause_of(r, e, o):
     if o in ('timeout', 'panic'):
         return o
     if field(e, 'calls') != field(o, 'calls'):
-        ec, oc = int(field(e, 'calls')), int(field(o, 'calls') or 0)
-        return 'stops_at_once' if oc > ec and (ctx[-1] in 'cxd' or ctx[0] in 'CD') else 'runs_total'
+        oc = int(field(o, 'calls') or 0)
+        # calls made although the context had ended at entry / after the wait at which it ended or the deadline check failed
+        after_ctx = (ctx[0] in 'CD' and oc > 0) or (ctx[-1] in 'cxd' and oc > len(ctx) - 1)
+        return 'stops_at_once' if after_ctx else 'runs_total'
     if field(e, 'result') != field(o, 'result'):
         return 'success_iff_last_ok'
     if field(e, 'main') != field(o, 'main') or field(e, 'is') != field(o, 'is'):
@@ -126,6 +130,12 @@ def report(res, r, e, o, clause, n_same):
         except ValueError:
             pass
         res.violation('nextwait:%s:%s:0:%s' % (b, m, n), what + more, 'input', True, case=[r], expected=[e], observed=[o])
+    elif verb == 'wait-spec':
+        b, m, j, n, w = parts[1:6]
+        res.violation('wait-spec:%s:%s:%s:%s' % (b, m, j, n),
+                      'nextWait(BackOff=%s, Max=%s, Jitter=%s, attempts=%s) returned %s: %s' % (b, m, 'true' if j == '1' else 'false', n, w,
+                      'it panics' if w == 'panic' else 'not the pause the property prescribes (closed form without jitter; within [0, min(Max, BackOff*(2^n-1))] and Max or a multiple of BackOff with jitter)') + more,
+                      'input', True, case=[r], expected=[e], observed=[o])
     elif verb == 'nextwait-feasible':
         b, m, n, w = parts[1:5]
         res.violation('nextwait:%s:%s:1:%s' % (b, m, n),
